@@ -53,6 +53,10 @@ pub struct Case {
     /// how the transport fills the ReadBuf (see `MockIo::read_style`)
     #[serde(default)]
     pub read_style: u8,
+    /// once the read script is used up the transport delivers this many bytes per read (0 = all
+    /// that is left): a peer that trickles, every read ready, a frame spread over dozens of reads
+    #[serde(default)]
+    pub trickle: u8,
 }
 
 #[derive(Clone, Debug, PartialEq)]
@@ -205,7 +209,7 @@ where
     // are decoded only once a read has succeeded (or at EOF), an error on the very first read would
     // legitimately precede them
     let pre = (c.preload as usize).min(c.stream.len()).min(err.map(|e| e.0.saturating_sub(1)).unwrap_or(usize::MAX));
-    let io = MockIo { stream: c.stream.clone(), delivered: pre, rscript: c.script.iter().copied().collect(), err_at: err, read_style: c.read_style % 3, ..Default::default() };
+    let io = MockIo { stream: c.stream.clone(), delivered: pre, rscript: c.script.iter().copied().collect(), err_at: err, read_style: c.read_style % 3, default_chunk: c.trickle as u16, ..Default::default() };
     let mut framed = if pre > 0 {
         Framed::from_parts(actix_codec::FramedParts::with_read_buf(io, codec, BytesMut::from(&c.stream[..pre])))
     } else {
@@ -345,6 +349,7 @@ fn check_inner(c: &Case) -> CaseResult {
     obs.label_if(run.closed_before_end, "write-half-closed-while-reading");
     obs.label_if(c.preload > 0 && !c.stream.is_empty(), "preloaded-read-buffer");
     obs.label_if(c.read_style % 3 != 0, "transport-initialises-beyond-filled");
+    obs.label_if(c.trickle > 0 && c.stream.len() > 40 * c.trickle as usize, "trickled->=40-ready-reads");
     Ok(obs)
 }
 
@@ -441,11 +446,13 @@ pub fn strategy(long: bool) -> impl Strategy<Value = Case> {
     prop::sample::select(if long { vec![Codec::LenU16, Codec::LenU16, Codec::Lines, Codec::Lines, Codec::Bytes, Codec::LenU8] } else { vec![Codec::LenU8, Codec::LenU16, Codec::Lines, Codec::Bytes] })
         .prop_flat_map(move |codec| {
             let stream = if long { stream_for(codec, true) } else { prop_oneof![3 => stream_for(codec, false), 1 => raw_stream().boxed()].boxed() };
-            (Just(codec), stream, script(long), prop::option::weighted(0.35, (any::<u16>(), 0u8..6)), prop::collection::vec((1u16..14, 0u8..4), 0..3), prop_oneof![3 => Just(0u16), 1 => 1u16..40, 1 => prop::sample::select(vec![1023u16, 1024, 8191, 8192, 8193, 20000])], prop_oneof![2 => Just(0u8), 1 => Just(1u8), 1 => Just(2u8)])
+            (Just(codec), stream, script(long), prop::option::weighted(0.35, (any::<u16>(), 0u8..6)), prop::collection::vec((1u16..14, 0u8..4), 0..3), prop_oneof![3 => Just(0u16), 1 => 1u16..40, 1 => prop::sample::select(vec![1023u16, 1024, 8191, 8192, 8193, 20000])], prop_oneof![2 => Just(0u8), 1 => Just(1u8), 1 => Just(2u8)], prop_oneof![4 => Just(0u8), 1 => Just(1u8), 1 => 2u8..8])
         })
-        .prop_map(|(codec, stream, script, e, between, preload, read_style)| {
+        .prop_map(|(codec, stream, script, e, between, preload, read_style, trickle)| {
             let err_at = e.map(|(at, k)| (vcore::pick(at, stream.len() + 1), k));
-            Case { codec, stream, script, err_at, between, preload, read_style }
+            // (long streams trickled byte by byte would take millions of polls)
+            let trickle = if stream.len() > 4096 { 0 } else { trickle };
+            Case { codec, stream, script, err_at, between, preload, read_style, trickle }
         })
 }
 
@@ -465,10 +472,11 @@ pub fn case_from_bytes(data: &[u8]) -> Case {
     let err_at = if e % 3 == 0 { Some(((at as usize * (stream.len() + 1)) >> 8, e / 3)) } else { None };
     let between = if bt % 2 == 0 { vec![] } else { vec![(1 + (bt as u16 >> 3) % 12, (bt >> 1) % 4)] };
     let preload = if bt % 5 == 4 { (at as u16) % 24 } else { 0 };
-    Case { codec, stream, script, err_at, between, preload, read_style: e % 3 }
+    let trickle = if bt % 7 == 3 && stream.len() <= 256 { 1 } else { 0 };
+    Case { codec, stream, script, err_at, between, preload, read_style: e % 3, trickle }
 }
 
-const RULE: &str = "(codec in {u8-length-prefixed with default decode_eof, u16-length-prefixed with stateful decode_eof, LinesCodec, BytesCodec}, byte stream built from frames of boundary-rich sizes (part framed-read-long: up to 20 KB, now and then 40..140 KB) plus truncation/junk or raw delimiter-rich bytes, read script of chunk sizes and Pendings, a transport that fills the ReadBuf with put_slice or with the adapter idiom initialize_unfilled + advance(n) (initialises more than it fills), optional one I/O error at a byte offset, and up to two things done to the Framed between polls that must not change what it yields: into_parts+from_parts / into_map_io / into_map_codec / closing its write half while the peer keeps sending; optionally the first bytes of the stream are already in the read buffer the Framed is built from (FramedParts::with_read_buf)) run through Framed::poll_next on a scripted AsyncRead with a fresh waker per poll, compared item by item with a fresh codec decoding the whole stream at once; non-trivial = >=2 frames with a chunk boundary or Pending inside the stream, or stream > 8 KiB; distinct by the whole case";
+const RULE: &str = "(codec in {u8-length-prefixed with default decode_eof, u16-length-prefixed with stateful decode_eof, LinesCodec, BytesCodec}, byte stream built from frames of boundary-rich sizes (part framed-read-long: up to 20 KB, now and then 40..140 KB) plus truncation/junk or raw delimiter-rich bytes, read script of chunk sizes and Pendings (after which the transport delivers everything, or trickles 1..7 bytes per always-ready read), a transport that fills the ReadBuf with put_slice or with the adapter idiom initialize_unfilled + advance(n) (initialises more than it fills), optional one I/O error at a byte offset, and up to two things done to the Framed between polls that must not change what it yields: into_parts+from_parts / into_map_io / into_map_codec / closing its write half while the peer keeps sending; optionally the first bytes of the stream are already in the read buffer the Framed is built from (FramedParts::with_read_buf)) run through Framed::poll_next on a scripted AsyncRead with a fresh waker per poll, compared item by item with a fresh codec decoding the whole stream at once; non-trivial = >=2 frames with a chunk boundary or Pending inside the stream, or stream > 8 KiB; distinct by the whole case";
 
 pub fn run(ctx: &Ctx) {
     ctx.assume("test codecs are prefix-consistent (decode on a longer buffer yields the same leading frames), as LinesCodec and length-prefixed codecs are; BytesCodec is judged by concatenation only");
